@@ -361,11 +361,67 @@ func (r *run) perturb(g *gen, k *kind, base claim, hb, vb, lb string) {
 			r.variant(g, k, baseName(ref.name)+" ("+p.how+")", base, hb, vb, lb, v)
 		}
 	}
+	for _, v := range chainVariants(g, k, base) {
+		r.out.Count("perturb:chain:" + v.how)
+		r.variant(g, k, v.how, base, hb, vb, lb, v.val)
+	}
 	r.listPerturb(g, k, base, hb, vb, lb)
 	for _, v := range listElemResplits(k, base) {
 		r.out.Count("perturb:list-elements:" + v.how)
 		r.variant(g, k, v.how, base, hb, vb, lb, v.val)
 	}
+}
+
+// chainVariants: the claim as a voter could submit it under ANOTHER chain name — the claim's own ChainName is neither
+// hashed nor compared with the chain the enclosing MsgClaim is routed to, and it selects the address class ValidateBasic
+// applies.  (a) another chain of the same address class: same effect, must stay so; (b) a chain of the other address
+// class, with every external address re-rendered for that class (0x-hex <-> base58check of the same 20 bytes): passes
+// ValidateBasic, names other addresses as far as the handlers are concerned, and must not share the hash
+func chainVariants(g *gen, k *kind, base claim) (out []cv) {
+	chain := elem(base).FieldByName("ChainName").String()
+	if ct.ValidateExternalAddr(chain, "") == nil || !knownChain(chain) {
+		return nil
+	}
+	same, other := ethChains, []string{"tron"}
+	if chain == "tron" {
+		same, other = []string{"tron"}, ethChains
+	}
+	if len(same) > 1 {
+		v := k.clone(base)
+		for {
+			if c2 := hx_pick(g, same); c2 != chain {
+				elem(v).FieldByName("ChainName").SetString(c2)
+				break
+			}
+		}
+		out = append(out, cv{"ChainName (another chain of the same address class)", v})
+	}
+	oc := hx_pick(g, other)
+	v := k.clone(base)
+	elem(v).FieldByName("ChainName").SetString(oc)
+	changed := false
+	for _, ref := range strRefs(v) {
+		old := ref.get(v)
+		if ct.ValidateExternalAddr(chain, old) != nil {
+			continue
+		}
+		bz := ct.ExternalAddrToAccAddr(chain, old)
+		ref.set(v, ct.ExternalAddrToStr(oc, bz))
+		changed = true
+	}
+	if changed {
+		out = append(out, cv{"the external addresses (re-rendered for the other address class, ChainName switched)", v})
+	}
+	return out
+}
+
+func knownChain(chain string) bool {
+	for _, n := range ct.GetSupportChains() {
+		if n == chain {
+			return true
+		}
+	}
+	return false
 }
 
 // listElemResplits: for every list-valued field, the same character string split at another position between adjacent
